@@ -141,9 +141,12 @@ def r1(ctx, rep, ci):
         last = sends[-1]
         armed = False
         why = "no call_later after the transmission"
-        for ev in p.events[last + 1:]:
+        for j, ev in enumerate(p.events[last + 1:], last + 1):
             if ev.kind == "call" and "call_later" in tags(ev):
                 delay = ev.node.args[0] if ev.node.args else None
+                if delay is not None:
+                    from ..astutil import expand_locals
+                    delay = expand_locals(delay, p.fn_at(j, fn).node)        # delay = self.timeout; call_later(delay, ...)
                 if not callback_is(ev.node, "_timeout_mechanism"):
                     why = "call_later does not schedule self._timeout_mechanism"
                 elif delay is None or norm(delay) != "self.timeout":
